@@ -517,11 +517,26 @@ impl<'r> Gen<'r> {
                 }
                 30..=37 => {
                     // rssl does not accept ~ on vectors
-                    let op = if k.is_float() || lanes > 1 || self.rng.chance(1, 2) { "-" } else { "~" };
+                    let op = if self.rng.chance(1, 4) {
+                        "+"
+                    } else if k.is_float() || lanes > 1 || self.rng.chance(1, 2) {
+                        "-"
+                    } else {
+                        "~"
+                    };
                     self.feature("unary");
-                    let inner = self.sub(k, lanes, d);
-                    // known finding KF-unary-sign-adjacency: -(-x) prints as --x; the generator keeps a sign away from a
-                    // leading sign (the directed witness covers the defect)
+                    // a sign directly over a sign or over a prefix increment / decrement: the parentheses are not part of the
+                    // tree, so the exporters have to keep the operator characters apart themselves
+                    let inner = if self.rng.chance(1, 5) {
+                        self.feature("unary-over-unary");
+                        match self.rng.below(3) {
+                            0 => format!("{}{}", op, self.sub(k, lanes, d)),
+                            1 => format!("{}{}", if op == "+" { "-" } else { "+" }, self.sub(k, lanes, d)),
+                            _ => self.side_effect(k, lanes, d),
+                        }
+                    } else {
+                        self.sub(k, lanes, d)
+                    };
                     if inner.starts_with('-') || inner.starts_with('+') || inner.starts_with('~') {
                         format!("{}({})", op, inner)
                     } else {
